@@ -228,7 +228,7 @@ PROPS = {
         rule=CHAIN_RULE + 'stream static: the same generator biased to literals, Cacheable/MustCache/Memoize/Singleton/NotCacheable providers with inputs from '
              'literals, init arguments, other static providers or invoke arguments, init functions and sessions of 2-7 steps; C06 non-trivial: the chain binds '
              'and includes a static injector; the monitor compares class/group of every provider, the number of calls of every provider over the session and '
-             'what init returns. stream cacheperm: a chain (half of them with one type replaced by an interface on the consuming side) with one non-fallible provider marked Cacheable, paired with the same chain without the mark; monitor: when the unmarked chain binds and the provider receives a per-invocation value there, the marked chain binds too (the provider is simply not hoisted)',
+             'what init returns. stream cacheperm: a chain (half of them with one type replaced by an interface on the consuming side) with one non-fallible provider marked Cacheable, paired with the same chain without the mark; monitor: when the unmarked chain binds and the provider receives a per-invocation value there, the marked chain binds too and the two observations are identical (the provider is simply not hoisted)',
         level_text='Theorems about the table GENERATED from characterize.go on every run: static_requires (only cacheable, non-NotCacheable functions in a static '
                    'context are hoisted), taint_sound (a provider reading a type supplied by invoke or an earlier per-invocation provider is never hoisted), '
                    'must_cache_or_fail, hoist_sufficient; and about the machine: static_not_rerun, done_sticky, base_frozen, first_run_sets_done (the static '
